@@ -130,6 +130,27 @@ def generate(rng, repo_root, opts=None):
             scn["sched"] = world.draw_schedule(rng, fs, obj["pf"], n, kind=rng.choice(
                 ["buildup", "buildup", "shutin", "random", "rise", "step_down", None]))
         scn["interp_first"] = rng.random() < 0.4   # an interpolator is also built BEFORE the recovery calls
+    # Representation swarm (drawn last, so the rest of every seeded scenario is what it was before): the same
+    # VALUES handed over in another legitimate container - read-only or non-contiguous arrays, lists, tuples,
+    # a pandas Series, a numpy scalar / 0-d array for the configured pressure.  Results must not depend on it.
+    if rng.random() < 0.3:
+        rep = {}
+        t_forms = ["readonly", "strided"] + ([] if cls == "IdealReservoir" else ["list"])
+        if rng.random() < 0.6:
+            rep["t"] = rng.choice(t_forms)
+        if rng.random() < 0.6:
+            rep["sched"] = rng.choice(["list", "tuple", "readonly", "strided", "series"])
+        if rng.random() < 0.4:
+            rep["pf"] = rng.choice(["np.float64", "0d", "int"])
+        scn["repr"] = rep
+    if kind == "interp" and rng.random() < 0.25:
+        # some of the recovery calls name an explicit ``time`` (documented optional argument): whatever a tree
+        # does with it, the interpolator must still read back recovery AT THE SIMULATED TIMES
+        scn["modes"] = [m + rng.choice(["", "@same", "@halfstep", "@shorter", "@longer"]) for m in (scn["modes"] or ["flux"])]
+    if kind == "const" and rng.random() < 0.15:
+        # the scalar setting is ASSIGNED after construction (public dataclass field), the object having been
+        # built with another scalar: values derived from the field at construction time must not survive
+        scn["reassign_from_pf"] = world.draw_pf(rng, fs)
     return scn
 
 
@@ -172,11 +193,40 @@ def _d(x):
     return h.hexdigest()
 
 
-def _fresh(ns, scn):
+def _fresh(ns, scn, pf_form=None):
     lib = ns.fresh()
     fl, _ = world.make_fluid(lib, scn["fluids"][0], ns.repo_root)
     o = scn["object"]
-    return getattr(lib, o["cls"])(int(o["nx"]), float(o["pf"]), float(o["pi"]), fl if o.get("fluid") is not None else None)
+    pf = float(o["pf"])
+    if pf_form == "np.float64":
+        pf = np.float64(pf)
+    elif pf_form == "0d":
+        pf = np.array(pf)
+    elif pf_form == "int" and pf == int(pf):
+        pf = int(pf)
+    return getattr(lib, o["cls"])(int(o["nx"]), pf, float(o["pi"]), fl if o.get("fluid") is not None else None)
+
+
+def _as_repr(a, how):
+    """The same values in another container (``how`` None = a private contiguous array)."""
+    if a is None:
+        return None
+    a = np.array(a, copy=True)
+    if how == "readonly":
+        a.setflags(write=False)
+        return a
+    if how == "strided":
+        big = np.zeros(2 * len(a), dtype=a.dtype)
+        big[::2] = a
+        return big[::2]
+    if how == "list":
+        return a.tolist()
+    if how == "tuple":
+        return tuple(a.tolist())
+    if how == "series":
+        import pandas as pd
+        return pd.Series(a)
+    return a
 
 
 def _try(fn):
@@ -241,6 +291,10 @@ def execute(ns, scn):
     cls = o["cls"]
     sched = None if scn.get("sched") is None else np.array(scn["sched"]["v"], dtype=float)
     has_density = o.get("fluid") is not None and ("density" in _columns(ns, scn))
+    rep = scn.get("repr") or {}
+    if rep:
+        for k, v in sorted(rep.items()):
+            out.probe(f"repr_swarm:{k}={v}")
 
     if kind == "shift":
         c = float(scn["shift"])
@@ -252,7 +306,7 @@ def execute(ns, scn):
             out.probe("shift_not_exact_skipped")
             out.log.append(("skip",))
             return out
-        r1, r2 = _fresh(ns, scn), _fresh(ns, scn)
+        r1, r2 = _fresh(ns, scn), _fresh(ns, scn, rep.get("pf"))
         if not _apply_pre(out, r2, scn, t2):
             return out
         # "unchanged to rounding level": on the lattice the library's results are bit-identical today; the
@@ -262,8 +316,11 @@ def execute(ns, scn):
         dmin = float(np.min(dpos[dpos > 0])) if np.any(dpos > 0) else 1.0
         tol_shift = max(1e-10, 64 * np.finfo(float).eps * (abs(c) + float(np.max(np.abs(t)))) / dmin)
         ok1, _, e1 = _sim(out, r1, t_native.copy(), None if sched is None else sched.copy())
-        ok2, _, e2 = _sim(out, r2, t2.copy(), None if sched is None else sched.copy())
+        ok2, _, e2 = _sim(out, r2, _as_repr(t2, rep.get("t")), _as_repr(sched, rep.get("sched")))
         out.log.append(("shift", c, ok1, ok2, e1, e2))
+        if rep and ok1 and not ok2:
+            out.probe("repr_form_rejected")     # a tree may refuse a container type; not this property's business
+            return out
         if ok1 != ok2:
             out.violate("1-shift", "one-raises", {"unshifted": e1, "shifted": e2, "shift": c})
             return out
@@ -316,18 +373,30 @@ def execute(ns, scn):
         return out
 
     if kind == "const":
-        r1, r2 = _fresh(ns, scn), _fresh(ns, scn)
+        r1, r2 = _fresh(ns, scn, rep.get("pf")), _fresh(ns, scn)
+        if scn.get("reassign_from_pf") is not None:
+            alt = dict(scn, object=dict(o, pf=float(scn["reassign_from_pf"])))
+            r1 = _fresh(ns, alt)
+            okset, _, eset = _try(lambda: setattr(r1, "pressure_fracface", float(o["pf"])))
+            out.log.append(("reassign", okset, eset))
+            if not okset:
+                out.probe("pf_reassignment_refused")    # e.g. a frozen dataclass: nothing to compare
+                return out
+            out.probe("scalar_assigned_after_construction")
         if not _apply_pre(out, r2, scn, t):
             return out
         ok1, _, e1 = _sim(out, r1, t.copy())
         if scn.get("const_form", "simulate_arg") == "simulate_arg":
             if scn.get("other_pf") is not None:
                 r2.pressure_fracface = float(scn["other_pf"])   # same as constructing it with that scalar
-            ok2, _, e2 = _sim(out, r2, t.copy(), np.full(n, float(o["pf"])))
+            ok2, _, e2 = _sim(out, r2, _as_repr(t, rep.get("t")), _as_repr(np.full(n, float(o["pf"])), rep.get("sched")))
         else:
             r2.pressure_fracface = np.full(n, float(o["pf"]))   # same as constructing with the array
             ok2, _, e2 = _sim(out, r2, t.copy())
         out.log.append(("const", ok1, ok2, e1, e2))
+        if rep and ok1 != ok2:
+            out.probe("repr_form_rejected")
+            return out
         if ok1 != ok2:
             out.violate("2-const", "one-raises", {"scalar": e1, "constant_schedule": e2})
             return out
@@ -374,6 +443,7 @@ def execute(ns, scn):
             fs = scn["fluids"][0]
             s = fs["_p_lo"] + r.rand(m) * (fs["p_i"] - fs["_p_lo"])
         before = (_d(getattr(res, "time", None)), _d(getattr(res, "pseudopressure", None)))
+        s = _as_repr(s, rep.get("sched"))
         ok, _, e = _try(lambda: res.simulate(t.copy(), s))
         out.log.append(("rejectlen", m, n, ok, e))
         if ok:
@@ -417,22 +487,33 @@ def execute(ns, scn):
             t = np.array([int(round(v)) for v in t], dtype=np.int64)
         if not _apply_pre(out, res, scn, t):
             return out
-        ok, _, e = _sim(out, res, t.copy(), sched)
+        ok, _, e = _sim(out, res, _as_repr(t, rep.get("t")), _as_repr(sched, rep.get("sched")))
         out.log.append(("sim", ok, e))
         if not ok:
             out.probe("interp_world_rejected")
             return out
         modes = [m for m in scn.get("modes", [scn.get("mode", "flux")]) if m != "none"]
         if not has_density:
-            modes = ["flux" for _ in modes]
+            modes = ["flux" + (("@" + m.split("@")[1]) if "@" in m else "") for m in modes]
         mode = "+".join(modes) or "none"
+        tf = np.asarray(t, dtype=float)
+        explicit = {"same": tf.copy(), "halfstep": tf + 0.5 * Q * 2 ** 10,
+                    "shorter": tf[: max(2, len(tf) // 2)].copy(),
+                    "longer": np.concatenate([tf, tf[-1] + (tf[-1] - tf[0] + 1.0) * np.arange(1, 4)])}
         r = None
         if scn.get("interp_first"):
             okf, _, ef = _try(lambda: res.recovery_factor_interpolator())
             out.log.append(("interp_first", okf, ef))
+        used_explicit = False
         for m in modes:
-            okr, r, er = _try(lambda m=m: res.recovery_factor(density=(m == "density")))
-            out.log.append(("rf", m, okr, er, _d(r)))
+            base, _, at = m.partition("@")
+            if at:
+                used_explicit = True
+                out.probe("recovery_called_with_explicit_time")
+                okr, r, er = _try(lambda: res.recovery_factor(explicit[at], density=(base == "density")))
+            else:
+                okr, r, er = _try(lambda: res.recovery_factor(density=(base == "density")))
+            out.log.append(("rf", m, okr, er, _d(r) if okr else None))
             if not okr:
                 out.probe("interp_rf_raised")
                 return out
@@ -441,6 +522,16 @@ def execute(ns, scn):
         if not oki:
             out.violate("5-interp", "raised", {"exc": ei, "mode": mode, "cls": cls})
             return out
+        if used_explicit:
+            # "recovery at the simulated times" = what a twin object that ran the same simulation returns for the
+            # last requested mode without a time argument (the array returned above may be on the requested times)
+            twin = _fresh(ns, scn)
+            okt, _, et = _sim(out, twin, np.array(t, copy=True), None if sched is None else sched.copy())
+            okt2, r, et2 = _try(lambda: twin.recovery_factor(density=(modes[-1].partition("@")[0] == "density"))) if okt else (False, None, et)
+            if not okt2:
+                out.probe("interp_twin_failed:" + str(et if not okt else et2))
+                return out
+            r = np.array(r, dtype=float, copy=True)
         if r is None:
             okr, r, er = _try(lambda: res.recovery_factor())
             if not okr:
@@ -559,6 +650,15 @@ def shrink_candidates(scn):
         c = copy.deepcopy(scn)
         c["pre_rejected"] = []
         yield c
+    if scn.get("repr"):
+        c = copy.deepcopy(scn)
+        c.pop("repr")
+        yield c
+        for k in scn["repr"]:
+            if len(scn["repr"]) > 1:
+                c = copy.deepcopy(scn)
+                c["repr"].pop(k)
+                yield c
     t = scn["grid"]["t"]
     n = len(t)
     for m in (2, 3, n // 2, n - 1):
